@@ -346,16 +346,15 @@ pub fn named_cases(alphabet: &[&str], positions: &[&str], family: &'static str) 
     let mut v = Vec::new();
     for n in alphabet {
         for p in positions {
-            let mut c = Case::inline(format!("name:{n}:{p}"), family, named_world(n, p));
-            // package names: WIT keywords cannot be escaped there, and upper-case words are
-            // accepted by wit-parser but rejected by the component binary format
+            // `all` = every naming position except namespace and package (WIT keywords cannot be
+            // escaped there, upper-case words are accepted by wit-parser but rejected by the
+            // component binary format, and one unescaped package name would mask every other
+            // position); namespace / package are separate positions.
             let upper = n.chars().any(|c| c.is_ascii_uppercase());
             if (*p == "namespace" || *p == "package") && upper {
                 continue;
             }
-            if *p == "all" && (upper || load(&c).is_err()) {
-                c = Case::inline(format!("name:{n}:{p}"), family, named_world_ex(n, p, false));
-            }
+            let c = Case::inline(format!("name:{n}:{p}"), family, named_world_ex(n, p, false));
             v.push(c);
         }
     }
